@@ -8,8 +8,8 @@ import specrun
 from comb_spec_searcher.exception import SpecificationNotFound
 
 
-class Timeout(Exception):
-    pass
+class Timeout(BaseException):
+    """raised by the per-worker alarm; a BaseException so that no `except Exception` (in the harness or in the library) swallows it"""
 
 
 def _alarm(_sig, _frm):
